@@ -100,6 +100,9 @@ func (p *Parser) FromString(data string) error {
 
 func (p *Parser) parseString(data string) error {
 	scanner := bufio.NewScanner(strings.NewReader(data))
+	// A line may be as long as the text itself: the default limit of bufio.Scanner (64 KiB) would
+	// end the scan at the first longer line and silently drop it together with everything after it.
+	scanner.Buffer(make([]byte, 0, 64*1024), len(data)+1)
 	var linebuffer strings.Builder
 	inBackticks := false
 	for scanner.Scan() {
@@ -139,6 +142,9 @@ func (p *Parser) parseString(data string) error {
 			}
 			linebuffer.Reset()
 		}
+	}
+	if err := scanner.Err(); err != nil {
+		return fmt.Errorf("failed to read directives: %w", err)
 	}
 	if inBackticks {
 		return errors.New("backticks left open")
